@@ -311,24 +311,112 @@ func vttEsc(s string) string {
 	return strings.NewReplacer("&", "&amp;", "<", "&lt;", "\u00a0", "&nbsp;").Replace(s)
 }
 
-func renderVtt(r *rng, d *vttDoc) string {
-	eol := r.pick("\n", "\r\n", "\r")
+// renderVtt renders a ground-truth document with every syntactic freedom of the C02 quantifier (the freedoms of the
+// theorem C02_read_rendered), all choices drawn from r.  It is renderVttC without statistics.
+func renderVtt(r *rng, d *vttDoc) string { return renderVttC(nil, r, d) }
+
+// vttWs is a run of lo..hi characters, each a space or a TAB.
+func vttWs(r *rng, lo, hi int) string {
+	n := lo + r.intn(hi-lo+1)
+	b := make([]byte, n)
+	for i := range b {
+		b[i] = " \t"[r.intn(2)]
+	}
+	return string(b)
+}
+
+// vttStampFree renders a cue time of a timing line: mm:ss.ttt (only when the hour part is 0) or h..h:mm:ss.ttt with an
+// hour field of any width >= 1 (the natural width, or zero-padded to 2, 3, 4 or 20..24 digits).  The second result names
+// the form for the statistics.
+func vttStampFree(r *rng, ns int64) (string, string) {
+	ms := ns / 1e6
+	h, m, s, f := ms/3600000, ms/60000%60, ms/1000%60, ms%1000
+	if h == 0 && r.chance(1, 3) {
+		return fmt.Sprintf("%02d:%02d.%03d", m, s, f), "mmss"
+	}
+	hs := strconv.FormatInt(h, 10)
+	w := []int{1, 1, 2, 2, 2, 3, 4, 20 + r.intn(5)}[r.intn(8)]
+	for len(hs) < w {
+		hs = "0" + hs
+	}
+	form := "hwidth.wide"
+	if len(hs) <= 4 {
+		form = "hwidth." + strconv.Itoa(len(hs))
+	}
+	return fmt.Sprintf("%s:%02d:%02d.%03d", hs, m, s, f), form
+}
+
+// identifier lines that are not numbers: the reader's identifier of the cue is 0, as when the line is absent
+var vttGarbageIDs = []string{"cue-1", "intro", "12abc", "1.5", "a b", "#7", "0x10", "é1", "NOTES", "Style", "Regions:", "x-timestamp-map", "- ->", "--"}
+
+var vttSettingPool = map[string][]string{"align": {"start", "center", "end", "left"}, "line": {"0", "-1", "50%", "5"}, "position": {"10%", "50%,line-left", "90%"}, "size": {"40%", "100%", "75%"}, "vertical": {"rl", "lr"}}
+
+// renderVttC is renderVtt recording, in R's distribution (keys vtt.render.*), which freedoms each document used.
+// Keys counted once per document: bom, header.*, tsmap, style, regions, eol.*, blank.after_header.*, blank.after_style.*,
+// blank.after_regions.*, blank.at_end.*, blank.whitespace_only; the others once per cue (stamp.* once per time).
+func renderVttC(R *runner, r *rng, d *vttDoc) string {
+	used := map[string]int{}
+	once := func(k string) { used[k] = 1 }
+	each := func(k string) { used[k]++ }
 	var L []string
+	// F4: what directly follows a block that was followed by no blank line at all
+	pendingZero := ""
+	next := func(kind string) {
+		if pendingZero != "" {
+			each("blank." + pendingZero + ".0.before_" + kind)
+			pendingZero = ""
+		}
+	}
+	blanks := func(where string, lo, hi int) {
+		n := lo + r.intn(hi-lo+1)
+		each(fmt.Sprintf("blank.%s.%d", where, n))
+		for i := 0; i < n; i++ {
+			if r.chance(1, 4) {
+				L = append(L, r.pick(" ", "\t", "  ", " \t", "\t \t"))
+				once("blank.whitespace_only")
+				each("blank.lines.whitespace")
+			} else {
+				L = append(L, "")
+				each("blank.lines.empty")
+			}
+		}
+		if n == 0 && lo == 0 && where != "at_end" {
+			pendingZero = where
+		}
+	}
+	// F12
+	eol := r.pick("\n", "\r\n", "\r")
+	once("eol." + map[string]string{"\n": "lf", "\r\n": "crlf", "\r": "cr"}[eol])
+	// F2
 	hdr := "WEBVTT"
-	if r.chance(1, 3) {
-		hdr += r.pick(" - a title", "\tKind: captions", " ")
+	switch r.intn(4) {
+	case 0, 1:
+		once("header.bare")
+	case 2:
+		hdr += " " + r.pick("- some title", "", "Kind: captions", "- a --> b", vttText(r, 3))
+		once("header.space_text")
+	case 3:
+		hdr += "\t" + r.pick("File", "", "- some title", "NOTE x", vttText(r, 3))
+		once("header.tab_text")
 	}
 	L = append(L, hdr)
+	// F3
 	if d.TSMap != nil {
 		L = append(L, fmt.Sprintf("X-TIMESTAMP-MAP=LOCAL:%s,MPEGTS:%d", stamp(d.TSMap[0], ".", 3, false), d.TSMap[1]))
+		once("tsmap")
 	}
-	L = append(L, "")
+	blanks("after_header", 0, 3)
+	// F5
 	if len(d.Styles) > 0 {
+		next("style")
+		once("style")
 		L = append(L, "STYLE")
 		L = append(L, d.Styles...)
-		L = append(L, "")
+		blanks("after_style", 1, 3)
 	}
+	// F6
 	for _, rg := range d.Regions {
+		next("region")
 		parts := []string{"id=" + rg.ID}
 		if rg.Lines != 0 {
 			parts = append(parts, "lines="+strconv.Itoa(rg.Lines))
@@ -354,27 +442,112 @@ func renderVtt(r *rng, d *vttDoc) string {
 		L = append(L, "Region: "+strings.Join(parts, " "))
 	}
 	if len(d.Regions) > 0 {
-		L = append(L, "")
+		once("regions")
+		blanks("after_regions", 0, 3)
 	}
-	for _, c := range d.Cues {
+	for ci, c := range d.Cues {
+		each("cues")
+		// F7
 		if len(c.Comments) > 0 {
+			next("note")
+			each("note")
+			if len(c.Comments) > 1 {
+				each("note.multiline")
+			}
 			L = append(L, "NOTE "+c.Comments[0])
 			L = append(L, c.Comments[1:]...)
-			L = append(L, "")
+			blanks("after_note", 1, 3)
 		}
-		if c.ID != 0 {
+		// F8
+		switch {
+		case c.ID != 0:
+			next("id")
+			each("id.numeric")
 			L = append(L, strconv.Itoa(c.ID))
+		case r.chance(1, 3):
+			next("garbage_id")
+			each("id.garbage")
+			L = append(L, vttGarbageIDs[r.intn(len(vttGarbageIDs))])
+		default:
+			each("id.absent")
 		}
-		tl := vttStamp(r, c.Start) + " --> " + vttStamp(r, c.End)
-		sep := r.pick(" ", "\t", "  ")
+		next("timing")
+		// F9, F10
+		s1, f1 := vttStampFree(r, c.Start)
+		s2, f2 := vttStampFree(r, c.End)
+		each("stamp." + f1)
+		each("stamp." + f2)
+		if f1 != f2 {
+			each("stamp.start_end_differ")
+		}
+		if c.Start >= 100*3600e9 {
+			each("stamp.hours_ge_100")
+		}
+		if c.End >= 100*3600e9 {
+			each("stamp.hours_ge_100")
+		}
+		w1, w2 := vttWs(r, 0, 2), vttWs(r, 0, 2)
+		each(fmt.Sprintf("arrow.before.%d", len(w1)))
+		each(fmt.Sprintf("arrow.after.%d", len(w2)))
+		if w1 == "" && w2 == "" {
+			each("arrow.tight")
+		}
+		if strings.Contains(w1+w2, "\t") {
+			each("arrow.tab")
+		}
+		tl := s1 + w1 + "-->" + w2 + s2
+		// F11: the settings present, in any order; a repeated key is rendered with another value first (the reader keeps
+		// the last occurrence, which is the ground truth's)
+		var kv [][2]string
 		for _, k := range []string{"align", "line", "position", "region", "size", "vertical"} {
 			v := c.Settings[k]
 			if k == "region" {
 				v = c.Region
 			}
 			if v != "" {
-				tl += sep + k + ":" + v
+				kv = append(kv, [2]string{k, v})
 			}
+		}
+		for i := len(kv) - 1; i > 0; i-- {
+			j := r.intn(i + 1)
+			kv[i], kv[j] = kv[j], kv[i]
+		}
+		for i := 0; i+1 < len(kv); i++ {
+			if kv[i][0] > kv[i+1][0] {
+				each("settings.shuffled")
+				break
+			}
+		}
+		if len(kv) > 0 && r.chance(1, 5) {
+			i := r.intn(len(kv))
+			k, v := kv[i][0], ""
+			if k == "region" {
+				v = d.Regions[r.intn(len(d.Regions))].ID // must be defined, as any region a cue refers to
+			} else {
+				pool := vttSettingPool[k]
+				v = pool[r.intn(len(pool))]
+				if v == kv[i][1] {
+					v = pool[(r.intn(len(pool)-1)+1+indexOfStr(pool, v))%len(pool)]
+				}
+			}
+			at := r.intn(i + 1)
+			kv = append(kv[:at], append([][2]string{{k, v}}, kv[at:]...)...)
+			each("settings.repeated_key")
+			if v != kv[i+1][1] {
+				each("settings.repeated_key.other_value")
+			}
+		}
+		each(fmt.Sprintf("settings.n.%d", len(kv)))
+		for _, p := range kv {
+			sep := vttWs(r, 1, 2)
+			if strings.Contains(sep, "\t") {
+				each("settings.sep.tab")
+			}
+			if len(sep) == 2 {
+				each("settings.sep.double")
+			}
+			each("settings." + p[0])
+			tl += sep + p[0] + ":" + p[1]
 		}
 		L = append(L, tl)
 		var stack []vttTag
@@ -412,15 +585,67 @@ func renderVtt(r *rng, d *vttDoc) string {
 			}
 			L[len(L)-1] = last
 		}
-		for k := 0; k < 1+r.intn(2); k++ {
-			L = append(L, "")
+		if ci+1 < len(d.Cues) {
+			blanks("after_cue", 1, 3)
+		} else {
+			blanks("at_end", 0, 3)
 		}
 	}
-	doc := strings.Join(L, eol)
+	next("eof")
+	// every line, the last one included, is followed by the line terminator
+	doc := strings.Join(L, eol) + eol
+	// F1
 	if r.chance(1, 3) {
 		doc = "\xef\xbb\xbf" + doc
+		once("bom")
+	}
+	if R != nil {
+		R.count("vtt.render.documents")
+		for k, n := range used {
+			R.countN("vtt.render."+k, n)
+		}
 	}
 	return doc
+}
+
+func indexOfStr(l []string, s string) int {
+	for i, x := range l {
+		if x == s {
+			return i
+		}
+	}
+	return 0
+}
+
+// vttExtendGT widens a ground-truth document for the reading suites: some documents get cue times of 100 hours and more
+// (inline timestamps moved along), some comment blocks get further lines.
+func vttExtendGT(r *rng, d *vttDoc) {
+	if len(d.Cues) > 0 && r.chance(1, 5) {
+		from := r.intn(len(d.Cues))
+		shift := (100 + r.i64n(9900)) * 3600e9
+		if r.chance(1, 4) {
+			shift = (100 + r.i64n(3)) * 3600e9
+		}
+		for i := from; i < len(d.Cues); i++ {
+			c := &d.Cues[i]
+			c.Start += shift
+			c.End += shift
+			for l := range c.Lines {
+				for k := range c.Lines[l].Runs {
+					if c.Lines[l].Runs[k].Time != 0 {
+						c.Lines[l].Runs[k].Time += shift
+					}
+				}
+			}
+		}
+	}
+	for i := range d.Cues {
+		if len(d.Cues[i].Comments) > 0 && r.chance(1, 3) {
+			for k := 0; k < 1+r.intn(2); k++ {
+				d.Cues[i].Comments = append(d.Cues[i].Comments, r.pick("and: more", "a third line", "note to self", "1", "0:01"))
+			}
+		}
+	}
 }
 
 // ---- the library's view, projected ----------------------------------------------------------------
@@ -715,14 +940,15 @@ func decodeVtt(doc []byte) (*vttDoc, error) {
 // ---- suite ----------------------------------------------------------------------------------------
 
 func suiteVtt(R *runner, r *rng) {
-	R.rule("webvtt: ground-truth documents (0..5 cues, 0..2 regions, optional STYLE block and timestamp map, NOTE comments, cue setting subsets, tag stacks of depth 0..3 with classes/annotations evolving by push/pop from run to run, inline timestamps, voices, Unicode text with & < nbsp) x renderings (EOL kinds, BOM, mm:ss.ttt vs hh:mm:ss.ttt, ids present/absent, tab/space before settings, header trailing text, tags closed or left to the blank line); reader vs ground truth; writer output decoded by the independent decoder and by the reader, cues numbered 1..n, regions defined before use; non-trivial = at least one cue")
+	R.rule("webvtt: ground-truth documents (0..5 cues, 0..2 regions, optional STYLE block and timestamp map, NOTE comments, cue setting subsets, tag stacks of depth 0..3 with classes/annotations evolving by push/pop from run to run, inline timestamps, voices, Unicode text with & < nbsp) x renderings (EOL kinds LF/CRLF/CR, BOM, header alone or followed by space/TAB and text, timestamp map line, 0..3 blank lines after the header block and after the region lines and at the end, 1..3 after STYLE/NOTE blocks and cue texts, blank lines empty or made of spaces/tabs, identifier line absent/numeric/not a number, each cue time as mm:ss.ttt or with an hour field of any width incl. hours >= 100, 0..2 spaces/tabs on either side of the arrow, cue settings in any order each after 1..2 spaces/tabs with an optional repeated key whose last occurrence counts, tags closed or left to the blank line; distribution keys vtt.render.*); reader vs ground truth; writer output decoded by the independent decoder and by the reader, cues numbered 1..n, regions defined before use; non-trivial = at least one cue")
 	N := 800
 	if R.tier == "thorough" {
 		N = 16000
 	}
-	for c := 0; c < N; c++ {
+	for c := 0; c < 3*N; c++ { // three times the other suites' share: the rendering freedoms multiply (see vtt.render.* counters)
 		d := randVttDoc(r, c%4 != 0)
-		doc := renderVtt(r, d)
+		vttExtendGT(r, d)
+		doc := renderVttC(R, r, d)
 		h := map[string]interface{}{"doc": doc, "cues": len(d.Cues)}
 		o := vttReadObs(doc, "vtt.read", h)
 		o.NT = len(d.Cues) > 0
@@ -740,6 +966,7 @@ func suiteVtt(R *runner, r *rng) {
 	// mutated documents: model comparison only
 	for c := 0; c < N/2; c++ {
 		d := randVttDoc(r, true)
+		vttExtendGT(r, d)
 		b := mutate(r, "webvtt", []byte(renderVtt(r, d)), nil)
 		o := vttReadObs(string(b), "vtt.read.mutated", map[string]interface{}{"doc": string(b)})
 		o.NT = o.Impl != "1"
